@@ -302,3 +302,109 @@ Theorem c05_convert_zin_fresh_refuted_as_found : forall (V : Type) (vzero vdef :
   dat V (fst s) 0 2 = c /\ dat V (fst s) 0 3 = e.
 Proof. exact convert_zin_fresh_refuted_as_found. Qed.
 Print Assumptions c05_convert_zin_fresh_refuted_as_found.
+
+(* ======================================================================================
+   Session 5 (package H): vnadata_convert as ONE abstract operation on arrays, inside arbitrary
+   histories over any number of objects (Data/TwoObjModel.v, Data/TwoObjProofs.v), and
+   convert_chain at the level of vnadata objects with `conv` instantiated by the generated
+   two-port functions of property C04 (Data/ChainModel.v, Data/ChainProofs.v,
+   Data/ChainExamples.v).  Repair DD2 is in the code: dd2 = true. *)
+Require Import LV.Base.CField LV.Base.QcI LV.Conv.ConvRel LV.Gen.Conv2All.
+Require Import LV.Data.TwoObjModel LV.Data.TwoObjProofs LV.Data.ChainModel LV.Data.ChainProofs
+               LV.Data.ChainExamples.
+
+(* vnadata_convert refines spec_convert: for any valid source and destination related to two
+   arrays the outcome is the one `spec_convert` predicts (refusal = destination unchanged;
+   acceptance = the destination BECOMES spec_conv_arr of the source array, whatever it held) *)
+Theorem c05_convert_refines_abstract_op : forall (V : Type) (vzero vdef : V) conv
+    (d dout : vd V) (same : bool) (ntz : Z) (A B : arr V),
+  Inv V vzero vdef d -> Inv V vzero vdef dout -> refines V d A -> refines V (if same then d else dout) B ->
+  snd (convert V vzero vdef fixed true conv d dout same ntz) = snd (spec_convert V vzero vdef conv A B ntz) /\
+  refines V (fst (convert V vzero vdef fixed true conv d dout same ntz)) (fst (spec_convert V vzero vdef conv A B ntz)) /\
+  Inv V vzero vdef (fst (convert V vzero vdef fixed true conv d dout same ntz)).
+Proof. exact convert_refines. Qed.
+Print Assumptions c05_convert_refines_abstract_op.
+
+(* the abstract conversion depends on the logical contents of the source only *)
+Theorem c05_spec_convert_extensional : forall (V : Type) (vzero vdef : V) conv a a' b b' ntz,
+  arr_eq V a a' -> arr_eq V b b' ->
+  snd (spec_convert V vzero vdef conv a b ntz) = snd (spec_convert V vzero vdef conv a' b' ntz) /\
+  arr_eq V (fst (spec_convert V vzero vdef conv a b ntz)) (fst (spec_convert V vzero vdef conv a' b' ntz)).
+Proof. exact spec_convert_ext. Qed.
+Print Assumptions c05_spec_convert_extensional.
+
+(* in place = out of place after EVERY history over any number of objects ("followed by / preceded
+   by arbitrary resize / convert histories"): in the state reached by l, an accepted conversion of
+   object a into itself and the same conversion into any other object b give the same logical
+   contents *)
+Theorem c05_inplace_eq_outofplace_everywhere : forall (V : Type) (vzero vdef : V) conv l a b ntz,
+  nvecs_ok V vzero vdef conv (ainit V vzero vdef) l ->
+  let s := nrun V vzero vdef conv (ninit V vzero vdef) l in
+  o_ret V (snd (nstep V vzero vdef conv s (NConv V a a ntz))) = ROk ->
+  arr_eq V (abs V (fst (nstep V vzero vdef conv s (NConv V a a ntz)) a))
+           (abs V (fst (nstep V vzero vdef conv s (NConv V a b ntz)) b)).
+Proof. exact conv_inplace_eq_outofplace_everywhere. Qed.
+Print Assumptions c05_inplace_eq_outofplace_everywhere.
+
+(* convert_chain.  K any field with conjugation (CField), conv = conv2_interp K zd: the generated
+   two-port function for the 2 x 2 groups; the N x N functions between S, Z, Y are IDENTIFIED at
+   n = 2 with the two-port function of the same name (what c04_stozn_eq_stoz etc. prove of the LU
+   model under their pivot hypotheses; not composed here) - hence `_nport_identified` in the name;
+   chains with at most one of S, Z, Y among the three types call 2 x 2 functions only
+   (c05_chain_two_port_functions_only) and do not use the identification.
+   For a valid 2 x 2 object d of matrix type X with any number of frequencies and ordinary or
+   per-frequency impedances, three different matrix types X, Y, Z, any valid objects o1 o2 o3 and
+   any choice of in place (s = true) / out of place for each call: if at every frequency the
+   impedances have positive real part (z0_ok) and the matrix is outside the singular sets of
+   X->Y, Y->Z (at the image) and X->Z, then all three calls succeed and converting X->Y->Z gives
+   the same logical contents (type, dimensions, frequencies, every cell, z0 mode, impedances,
+   options, and 0 outside) as converting X->Z. *)
+Theorem c05_convert_chain_nport_identified : forall (K : CField) (zd vdef : K)
+    (d o1 o2 o3 : vd K) (s1 s2 s3 : bool) X Y Z,
+  char_ok K -> Inv K c0 vdef d -> Inv K c0 vdef o1 -> Inv K c0 vdef o2 -> Inv K c0 vdef o3 ->
+  ty K d = vpt_of_pt X -> rows K d = 2 -> cols K d = 2 ->
+  X <> Y -> Y <> Z -> X <> Z ->
+  chain_ok K (abs K d) X Y Z ->
+  let cv := convert K c0 vdef fixed true (conv2_interp K zd) in
+  let rb := cv d o1 s1 (vpt_code (vpt_of_pt Y)) in
+  let rc := cv (fst rb) o2 s2 (vpt_code (vpt_of_pt Z)) in
+  let rd := cv d o3 s3 (vpt_code (vpt_of_pt Z)) in
+  snd rb = ok K /\ snd rc = ok K /\ snd rd = ok K /\ arr_eq K (abs K (fst rc)) (abs K (fst rd)).
+Proof. exact convert_chain. Qed.
+Print Assumptions c05_convert_chain_nport_identified.
+
+Theorem c05_chain_two_port_functions_only : forall X Y cs,
+  conv_spec (vpt_of_pt X) (vpt_of_pt Y) = Some cs -> X <> Y ->
+  (is_nport (vpt_of_pt X) && is_nport (vpt_of_pt Y))%bool = false ->
+  cs_fn cs = F2 (vpt_of_pt X) (vpt_of_pt Y).
+Proof. exact chain_two_port_functions_only. Qed.
+Print Assumptions c05_chain_two_port_functions_only.
+
+(* non-vacuity: over the Gaussian rationals, for every X, Y, Z and both z0 modes, a 2 x 2 object
+   with two frequencies reached by a history from vnadata_alloc meets every hypothesis ... *)
+Theorem c05_convert_chain_satisfiable : forall X Y Z perf,
+  char_ok QIF /\ Inv QIF c0 q50 (ex_obj X perf) /\
+  ty QIF (ex_obj X perf) = vpt_of_pt X /\ rows QIF (ex_obj X perf) = 2 /\ cols QIF (ex_obj X perf) = 2 /\
+  freqs QIF (ex_obj X perf) = 2 /\ per_f QIF (ex_obj X perf) = perf /\
+  chain_ok QIF (abs QIF (ex_obj X perf)) X Y Z.
+Proof. exact chain_hypotheses_satisfiable. Qed.
+Print Assumptions c05_convert_chain_satisfiable.
+
+(* ... and one chain evaluated in exact arithmetic: S (per-frequency z0) -> T in place -> H into a
+   used 3 x 3 x 3 object against S -> H into a fresh object: same 8 cells and 4 impedances, which
+   differ from the S cells *)
+Theorem c05_convert_chain_example :
+  let cv := convert QIF c0 q50 fixed true (conv2_interp QIF q50) in
+  let d := ex_obj PS true in
+  let b := fst (cv d d true 2%Z) in
+  let c := fst (cv b ex_used false 6%Z) in
+  let c' := fst (cv d (vd_alloc QIF c0 q50) false 6%Z) in
+  qil_eqb (List.concat (ob_dat QIF (observe QIF c))) (List.concat (ob_dat QIF (observe QIF c'))) = true /\
+  qil_eqb (List.concat (ob_z0 QIF (observe QIF c))) (List.concat (ob_z0 QIF (observe QIF c'))) = true /\
+  List.length (List.concat (ob_dat QIF (observe QIF c))) = 8 /\ List.length (List.concat (ob_z0 QIF (observe QIF c))) = 4 /\
+  (ob_ty QIF (observe QIF c), ob_rows QIF (observe QIF c), ob_cols QIF (observe QIF c), ob_freqs QIF (observe QIF c),
+   ob_perf QIF (observe QIF c)) = (VH, 2, 2, 2, true) /\
+  ob_ty QIF (observe QIF c') = VH /\ ty QIF b = VT /\
+  qil_eqb (List.concat (ob_dat QIF (observe QIF c))) (List.concat (ob_dat QIF (observe QIF d))) = false.
+Proof. exact chain_evaluated. Qed.
+Print Assumptions c05_convert_chain_example.
